@@ -289,6 +289,14 @@ func (env *Env) ident(name string) Val {
 	}
 	if env.fr != nil {
 		for fr := env.fr; fr != nil; fr = fr.parent {
+			if env.inOld {
+				// entry values of parameters
+				for i, p := range fr.fn.Params {
+					if p.Name() == name && i < len(fr.params) {
+						return fr.params[i]
+					}
+				}
+			}
 			if c, ok := fr.names[name]; ok {
 				if _, live := st.cells[c]; !live && !c.arr {
 					efail("variable %q is not declared on this path", name)
